@@ -1388,11 +1388,21 @@ func (m *mergeQuery) Properties() queryProp {
 
 func getHashCode(n NodeNavigator) uint64 {
 	var sb bytes.Buffer
+	// The key is the path of sibling positions up to the root followed, after
+	// a separator, by the node's own name (and value). The name comes last so
+	// that its characters cannot be taken for positions: '-' and digits are
+	// legal in names ("a-1").
+	var tail string
 	switch n.NodeType() {
 	case AttributeNode, TextNode, CommentNode:
-		sb.WriteString(n.LocalName())
-		sb.WriteByte('=')
-		sb.WriteString(n.Value())
+		tail = n.LocalName() + "=" + n.Value()
+	case ElementNode:
+		tail = n.Prefix() + n.LocalName()
+	}
+	switch typ := n.NodeType(); typ {
+	case AttributeNode, TextNode, CommentNode, ElementNode:
+		// an attribute and the first child of its element have the same positions.
+		sb.WriteByte(byte('0' + typ))
 		// https://github.com/antchfx/htmlquery/issues/25
 		d := 1
 		for n.MoveToPrevious() {
@@ -1408,23 +1418,8 @@ func getHashCode(n NodeNavigator) uint64 {
 			sb.WriteByte('-')
 			sb.WriteString(strconv.Itoa(d))
 		}
-	case ElementNode:
-		sb.WriteString(n.Prefix() + n.LocalName())
-		d := 1
-		for n.MoveToPrevious() {
-			d++
-		}
-		sb.WriteByte('-')
-		sb.WriteString(strconv.Itoa(d))
-
-		for n.MoveToParent() {
-			d = 1
-			for n.MoveToPrevious() {
-				d++
-			}
-			sb.WriteByte('-')
-			sb.WriteString(strconv.Itoa(d))
-		}
+		sb.WriteByte('/')
+		sb.WriteString(tail)
 	}
 	h := fnv.New64a()
 	h.Write(sb.Bytes())
